@@ -11,7 +11,8 @@ def _src_hash():
     h = hashlib.sha256()
     roots = [os.path.join(REPO, "glass-easel-template-compiler", "src"), os.path.join(HARNESS, "src"),
              os.path.join(VERIF, "jsrt"), os.path.join(VERIF, "lib", "behave.py"), os.path.join(VERIF, "lib", "tsstrip.py"),
-             os.path.join(REPO, "glass-easel", "src", "tmpl", "range_list_diff.ts")]
+             os.path.join(REPO, "glass-easel", "src", "tmpl", "range_list_diff.ts"),
+             os.path.join(REPO, "glass-easel", "src", "tmpl", "index.ts")]
     for r in roots:
         if os.path.isfile(r):
             h.update(open(r, "rb").read())
@@ -31,7 +32,9 @@ def canon(tree):
 def get_results(tier, seed, kind="behave"):
     """returns list of dict(job=..., run=<node result of the history>, fresh=[node results of create(Di)])"""
     rld = real_list_manager()
-    key = "%s_%s_%s_%s_%s" % (kind, tier, seed, _src_hash(), os.path.basename(rld)[4:12] if rld else "norld")
+    idx = real_template_instance()
+    key = "%s_%s_%s_%s_%s_%s" % (kind, tier, seed, _src_hash(), os.path.basename(rld)[4:12] if rld else "norld",
+                                 os.path.basename(idx)[4:12] if idx else "noidx")
     d = os.path.join(CACHE, "behave")
     os.makedirs(d, exist_ok=True)
     path = os.path.join(d, key + ".pkl")
@@ -46,15 +49,24 @@ def get_results(tier, seed, kind="behave"):
     index = []
     for j in jobs_in:
         steps = [{"create": j["datas"][0]}]
-        for d1, u in zip(j["datas"][1:], j["trees"]):
-            steps.append({"update": d1, "U": u})
+        if "changes" in j:
+            # histories given as data changes: the real runtime's template instance builds the trees (or takes the
+            # binding-map shortcut) and drives the reference runtime
+            for d1, ch in zip(j["datas"][1:], j["changes"]):
+                steps.append({"changes": ch, "data": d1})
+            j["trees"] = j["changes"]
+        else:
+            for d1, u in zip(j["datas"][1:], j["trees"]):
+                steps.append({"update": d1, "U": u})
         base = {"op": "run", "bundle": j["bundle"], "path": j["path"], "slotValues": j.get("slotValues")}
+        if "mode" in j:
+            base["mode"] = j["mode"]
         index.append(len(jobs))
         # one history in three hands the trees over in the form the runtime builds for array splices (index marks inherited
         # from a prototype array)
         jobs.append(dict(base, id="h", steps=steps, log=True, arrayTrees=(zlib.crc32(j["src"].encode("utf8")) % 3 == 0)))
         for d1 in j["datas"][1:]:
-            jobs.append(dict(base, id="f", steps=[{"create": d1}], log=False))
+            jobs.append(dict({k: v for k, v in base.items() if k != "mode"}, id="f", steps=[{"create": d1}], log=False))
     out = node_jobs(jobs, shards=12)
     res = []
     for j, k in zip(jobs_in, index):
